@@ -70,6 +70,10 @@ Params(f) ==
     [] f = "Sandwich" -> [kind |-> {"PlanarSandwich", "PlanarSandwichHot", "PlanarSandwichHalf"}, kappa |-> Pick({<<1, 1>>, <<1, 2>>}, {}),
                           L |-> Pick({<<2, 1>>, <<3, 1>>}, {}), TL |-> Pick({<<0, 1>>, <<3, 1>>}, {}), TR |-> Pick({<<0, 1>>, <<2, 1>>}, {}),
                           b1 |-> Pick({<<1, 1>>, <<2, 1>>}, {}), b2 |-> Pick({<<0, 1>>, <<1, 2>>}, {})]
+    [] f = "RadShock" -> \* Cv in units of the default 1.4472799784454e12 erg/(g eV)
+                         [solver |-> Pick({"ED", "nED", "LM_nED"}, {"FLD_LP", "FLD_1", "FLD_2"}), M0 |-> Pick({<<6, 5>>, <<2, 1>>}, {<<21, 20>>, <<3, 1>>, <<5, 1>>}),
+                          gamma |-> Pick({<<5, 3>>, <<7, 5>>}, {}), Cv |-> Pick({<<1, 1>>, <<1, 2>>}, {}), Tref |-> Pick({<<100, 1>>, <<200, 1>>}, {}),
+                          rho0 |-> Pick({<<1, 1>>}, {<<1, 2>>})]
     [] f = "SuOlson" -> [epsilon |-> Pick({<<1, 1>>, <<1, 10>>}, {<<2, 1>>, <<1, 2>>}), opac |-> Pick({<<1, 1>>, <<5, 2>>}, {}),
                          trad_bc_ev |-> Pick({<<1000, 1>>, <<300, 1>>}, {})]
     [] f = "Rectangle" -> [kappa |-> Pick({<<1, 1>>, <<1, 2>>}, {}), a |-> Pick({<<2, 1>>, <<3, 1>>}, {}), b |-> Pick({<<2, 1>>, <<1, 1>>}, {}),
@@ -112,6 +116,7 @@ TimesOf(f, p) ==
     [] f = "EPpiston" -> Pick({<<1, 50>>, <<1, 20>>}, {})
     [] f \in {"Kenamond1", "Kenamond2", "Kenamond3", "DSDcyl"} -> {<<1, 1>>}      \* burn-time fields do not depend on t
     [] f = "Blake" -> Pick({<<1, 20>>, <<1, 10>>}, {})
+    [] f = "RadShock" -> {<<1, 1>>}
     [] f = "SuOlson" -> Pick({<<1, 10>>, <<1, 1>>, <<10, 1>>}, {<<1, 100>>, <<3, 1>>})     \* dimensionless time tau
     [] f \in {"Rod1D", "Hutchens1", "RodNH", "Sandwich", "Rectangle", "Hutchens2"} -> Pick({<<1, 10>>, <<1, 2>>}, {<<1, 100>>})
     [] OTHER -> Times
@@ -120,7 +125,7 @@ TimesOf(f, p) ==
 (* fractional power of a negative number): the mathematics, not a        *)
 (* documented restriction of the solver                                  *)
 Geom(f, p) == IF "geometry" \in DOMAIN p THEN p.geometry
-              ELSE IF f \in RiemannFams \cup {"EHEP", "Mader", "EPpiston", "Rod1D", "RodNH", "Sandwich", "SuOlson"} THEN 1 ELSE IF f = "DSDcyl" THEN 2 ELSE 3
+              ELSE IF f \in RiemannFams \cup {"EHEP", "Mader", "EPpiston", "Rod1D", "RodNH", "Sandwich", "SuOlson", "RadShock"} THEN 1 ELSE IF f = "DSDcyl" THEN 2 ELSE 3
 Defined(f, p, t) ==
   LET k == Geom(f, p) - 1 IN
   CASE f \in RiemannFams -> /\ ~(QEq(p.pl, p.pr) /\ QEq(p.ul, p.ur))                   \* a pure contact has no acoustic waves
